@@ -313,6 +313,120 @@ def main():
                 res['steps'] = steps if task.get('want_steps') else None
                 res['nsteps'] = len(steps)
                 res['newton_skipped'] = nskip[0]
+            elif kind == 'trace':
+                # a shipped method through its REAL driver; every call of dirk_step / rosenbrock_step
+                # (accepted, rejected or failed) is recorded with its arguments (x, tau, Fx, table) and
+                # everything the single-step oracles need (Newton calls per stage / linear-solve outputs)
+                name = task['name']
+                meth = getattr(solvers, name)
+                M = mk_matrix(task['Mkind'], task.get('M'))
+                F, J, flog = mk_problem(task)
+                x0 = np.array(task['x'], dtype=float)
+                attempts = []
+                cur = {'newton': None, 'ks': None}
+                cap = int(task.get('max_attempts', 400))
+
+                class TooMany(Exception):
+                    pass
+
+                def rec_newton(Fn, Jn, xs, **kw):
+                    n0 = len(flog)
+                    ent = {'x0': fl(xs), 'res0': float(np.linalg.norm(Fn(np.array(xs)))), 'kw': {k: kw[k] for k in kw}}
+                    del flog[n0:]
+                    if cur['newton'] is not None:
+                        cur['newton'].append(ent)
+                    try:
+                        y = orig_newton(Fn, Jn, xs, **kw)
+                    except solvers.NoConvergenceError:
+                        ent['raised'] = True
+                        ent['nF'] = len(flog) - n0
+                        raise
+                    ent['y'] = fl(y)
+                    ent['nF'] = len(flog) - n0
+                    ent['last_eval'] = fl(flog[-1])
+                    return y
+
+                class Rec:
+                    def __init__(self, op):
+                        self.op = op
+
+                    def dot(self, v):
+                        r = self.op.dot(v)
+                        if cur['ks'] is not None:
+                            cur['ks'].append(fl(r))
+                        return r
+                    __matmul__ = dot
+
+                def rec_make_solver(B, *a, **kw):
+                    return Rec(orig_make_solver(B, *a, **kw))
+
+                def common(a, kw):
+                    if len(attempts) >= cap:
+                        raise TooMany()
+                    Fx_in = kw.get('Fx')
+                    return {'x': fl(a[3]), 'tau': float(a[4]), 'Fx_in': None if Fx_in is None else fl(Fx_in),
+                            'data_keys': sorted(str(k) for k in a[5].keys()) if isinstance(a[5], dict) else None}
+
+                def rec_dirk(A, *a, **kw):
+                    ent = common(a, kw)
+                    ent.update(kind='dirk', A=np.asarray(A, dtype=float).tolist(), newton=[])
+                    attempts.append(ent)
+                    cur['newton'], cur['ks'] = ent['newton'], None
+                    n0 = len(flog)
+                    try:
+                        r = orig_dirk_step(A, *a, **kw)
+                    except solvers.NoConvergenceError:
+                        ent['status'] = 'Other:NoConvergenceError'
+                        raise
+                    finally:
+                        cur['newton'] = None
+                    ent['status'] = 'Ok'
+                    ent['ntuple'] = len(r)
+                    ent['x_new'] = fl(r[0])
+                    if len(r) == 3:
+                        ent['x_est'] = fl(r[1])
+                    ent['F_x_new'] = None if r[-1] is None else fl(r[-1])
+                    return r
+
+                def rec_ros(A, G, b, bh, *a, **kw):
+                    ent = common(a, kw)
+                    ent.update(kind='ros', A=np.asarray(A, dtype=float).tolist(), G=np.asarray(G, dtype=float).tolist(),
+                               b=fl(b), bh=None if bh is None else fl(bh), ks=[])
+                    attempts.append(ent)
+                    cur['newton'], cur['ks'] = None, ent['ks']
+                    n0 = len(flog)
+                    try:
+                        r = orig_ros_step(A, G, b, bh, *a, **kw)
+                    finally:
+                        cur['ks'] = None
+                    ent['status'] = 'Ok'
+                    ent['ntuple'] = len(r)
+                    ent['x_new'] = fl(r[0])
+                    if len(r) == 3:
+                        ent['x_est'] = fl(r[1])
+                    ent['last_is_none'] = r[-1] is None
+                    ent['F_points'] = [fl(p) for p in flog[n0:]]
+                    return r
+                solvers.dirk_step, solvers.rosenbrock_step = rec_dirk, rec_ros
+                solvers.newton, solvers.make_solver = rec_newton, rec_make_solver
+                try:
+                    args = [M, F, J, x0, task['tau'], task['t_end']]
+                    kw = {'t0': task['t0']}
+                    if task['adaptive_api']:
+                        args.append(task['tol'])
+                        if task.get('step_factor') is not None:
+                            kw['step_factor'] = task['step_factor']
+                    try:
+                        times, sols = meth(*args, **kw)
+                        res['times'] = [float(t) for t in times]
+                        res['sols'] = [fl(s) for s in sols]
+                        res['too_many'] = False
+                    except TooMany:
+                        res['too_many'] = True
+                finally:
+                    solvers.dirk_step, solvers.rosenbrock_step = orig_dirk_step, orig_ros_step
+                    solvers.newton, solvers.make_solver = orig_newton, orig_make_solver
+                res['attempts'] = attempts
             else:
                 raise RuntimeError('unknown task kind ' + kind)
             res['status'] = 'Ok'
